@@ -1,9 +1,81 @@
 (* C09 - Inline formatting: greedy line breaking inside the available width. Property theorems only
    (models: model/C09*.v, proofs: proofs/C09_*.v). *)
-From Coq Require Import ZArith QArith List Bool.
-Require Import WV.model.C09Align WV.proofs.C09_align.
+From Coq Require Import String ZArith QArith List Bool.
+Require Import WV.model.C09Line WV.model.C09Spec WV.model.C09Judge WV.model.C09Align.
+Require Import WV.proofs.C09_pango WV.proofs.C09_sfl WV.proofs.C09_align.
 Import ListNotations.
 Open Scope Q_scope.
+
+(* ---- 1. first line of a text run: split_first_line (model/C09Line.v) with Pango = the reference breaker G ----
+   texts are lists over letters (1em), Sp, Nl, Shy (U+00AD), Hy (U+2010); `simple` = letters and spaces only;
+   `words ws` = every word is a non-empty list of letters; join = the words separated by single spaces;
+   wlen ws k = characters of the k first words on one line. *)
+
+(* the "short text" shortcut of step 1 is sound: when Pango breaks a prefix of the text into two lines, it
+   breaks the whole text at the same place, with the same width - for every text of letters and spaces, every
+   prefix length, width and font size *)
+Theorem C09_shortcut_is_sound fs ins (t : text) (m : nat) (w : Q) l r wd :
+  0 <= fs -> simple t -> (m <= length t)%nat ->
+  G fs ins (firstn m t) (Some w) false = (l, Some r, wd) ->
+  G fs ins t (Some w) false = (l, Some r, wd).
+Proof. exact (G_stable fs ins t m w l r wd). Qed.
+Print Assumptions C09_shortcut_is_sound.
+
+(* the breaker the implementation relies on is greedy on every list of words: it takes k words, the k+1 first
+   words do not fit, and the k first words fit unless k = 1 (one unbreakable unit); the line is reported without
+   the space that follows it *)
+Theorem C09_first_fit_is_greedy fs ins (ws : list text) (w : Q) :
+  0 <= fs -> words ws -> ws <> [] ->
+  let n := length ws in let t := join ws in
+  exists k, (1 <= k <= n)%nat /\
+    ((2 <= k)%nat -> fits_chars fs w (wlen ws k)) /\
+    ((k < n)%nat -> ~ fits_chars fs w (wlen ws (k + 1))) /\
+    G fs ins t (Some w) false =
+      if (k =? n)%nat then (length t, None, inject_Z (Z.of_nat (length t)) * fs)
+      else ((wlen ws k + 1)%nat, Some (wlen ws k + 1)%nat, inject_Z (Z.of_nat (wlen ws k)) * fs).
+Proof. exact (G_words fs ins ws w). Qed.
+Print Assumptions C09_first_fit_is_greedy.
+
+(* break_only_at_opportunities, white-space: nowrap | pre (or no width): for ALL texts of the alphabet the model of
+   split_first_line returns the first paragraph as one line whatever the width, and resumes right after the
+   preserved newline *)
+Theorem C09_no_wrap_breaks_only_at_newline st (t : text) mw ils mini :
+  text_wrap (st_ws st) = false \/ mw = None ->
+  let fs := st_fs st in
+  let p := para t in
+  sfl_model st t mw ils mini =
+  if has_ch is_nl t then
+    let p' := if space_collapse (st_ws st) then rstrip p else p in
+    Out p' (nbytes p') (Some (nbytes p + 1)%Z) (inject_Z (visw p') * fs)
+  else Out t (nbytes t) None (inject_Z (visw t) * fs).
+Proof. exact (no_wrap_only_newline st t mw ils mini). Qed.
+Print Assumptions C09_no_wrap_breaks_only_at_newline.
+
+(* the faithful model REFUTES greedy / opportunity statements in presence of soft hyphens and break-all; each
+   witness is replayed on the implementation by the check (open findings F111-F113) *)
+Theorem C09_greedy_refuted_overflow_runs_to_soft_hyphen :
+  exists st t w, let o := sfl_model st t (Some w) true false in
+    o = Out (tx "aaaaaaaaaa bbb ccc ddd ee-="%string) 27 (Some 27%Z) 260 /\ w < 260 /\
+    sp_end (spec_first_line st t (Some w) true false) = 10%nat /\
+    spec_mask st t (Some w) true false o <> 0%nat.
+Proof. exact greedy_refuted_overflow_runs_to_soft_hyphen. Qed.
+Print Assumptions C09_greedy_refuted_overflow_runs_to_soft_hyphen.
+
+Theorem C09_soft_hyphen_break_without_hyphen_refuted :
+  exists st t w, let o := sfl_model st t (Some w) true false in
+    o = Out (tx "aaaaaa-"%string) 8 (Some 8%Z) 60 /\
+    sp_hyphen (spec_first_line st t (Some w) true false) = true /\
+    spec_mask st t (Some w) true false o <> 0%nat.
+Proof. exact soft_hyphen_break_without_hyphen. Qed.
+Print Assumptions C09_soft_hyphen_break_without_hyphen_refuted.
+
+Theorem C09_break_all_greedy_refuted_hyphen_room :
+  exists st t w, let o := sfl_model st t (Some w) true false in
+    o = Out (tx "aa"%string) 2 (Some 2%Z) 20 /\
+    sp_end (spec_first_line st t (Some w) true false) = 3%nat /\
+    spec_mask st t (Some w) true false o <> 0%nat.
+Proof. exact break_all_reserves_hyphen_room. Qed.
+Print Assumptions C09_break_all_greedy_refuted_hyphen_room.
 
 (* ---- 2. offsets of a line: text_align / the rtl mirror of get_next_linebox / justify_line / add_word_spacing ---- *)
 
@@ -87,5 +159,5 @@ Theorem C09_uniform_lines strut children lh n y i yi hi :
   Forall (fun c => fst c == fst strut /\ snd c == snd strut) children ->
   line_height_of strut children == snd strut /\
   (nth_error (stack y (repeat lh n)) i = Some (yi, hi) -> yi == y + inject_Z (Z.of_nat i) * lh /\ hi = lh).
-Proof. intros H. split; [exact (line_height_uniform strut children H) | exact (stack_uniform lh n y i yi hi)]. Qed.
+Proof. exact (uniform_lines strut children lh n y i yi hi). Qed.
 Print Assumptions C09_uniform_lines.
